@@ -345,7 +345,7 @@ fn check_t2(scn: &Scenario, stats: &mut Stats) -> Vec<Violation> {
     for flags in &spec.modes {
         let mut first: Option<(u64, String)> = None;
         for &e in &scn.entropy {
-            let call = t2::RvaCall { sandbox: &sb, base: &scn.world.base, flags, entropy: e, plan: &spec.plan, profile: &spec.profile, force_color: false, cpu_seconds: 10, raw_base: None, stdout_fault: None };
+            let call = t2::RvaCall { sandbox: &sb, base: &scn.world.base, flags, entropy: e, plan: &spec.plan, profile: &spec.profile, force_color: false, cpu_seconds: 10, raw_base: None, stdout_fault: None, fifos: vec![] };
             let Ok(run) = t2::run_rva(&call) else {
                 stats.inc("harness:spawn_failed");
                 return out;
